@@ -1133,6 +1133,9 @@ def ownership_session(rng):
     sch = Schedule(look_to, dur)
     nrows = rng.choice([4, 6, 8])
     users = [(11, "Alice"), (12, "Bob"), (13, "Wheatley"), (14, "Alice")]
+    if name is not None and rng.random() < 0.4:
+        # somebody else whose name differs from the configured one only in case or in blanks: not Wheatley's bells
+        users[1] = (12, rng.choice([name.lower(), name.upper(), " " + name, name + " ", name.swapcase()]))
     evs = [ev(0, "global", [True] * n)]
     if rng.random() < 0.5:
         evs.append(ev(Fraction(3, 100), "userlist", [list(u) for u in users]))
